@@ -9,6 +9,7 @@ CONSTANTS
   BatchSizes = {1}
   PerIns = 0
   PerFl = 0
+  LateTables = {}
   LockScope = "fix"
   SigMode = "none"
   Impl = TRUE
